@@ -704,6 +704,45 @@ def r6(k: Kit) -> None:
                   'right passphrase', pf.loc(pf.node))
 
 
+def r7(k: Kit) -> None:
+    """Certificates asyncssh writes list their options in sorted order."""
+    rep = k.rep
+    rep.rule('C15.R7', 'the encoder tables from which a generated OpenSSH '
+             'certificate\'s critical options and extensions are written '
+             'are in ascending byte order of the names (PROTOCOL.certkeys: '
+             'options "must be lexically ordered by name"); PyCA and '
+             'OpenSSH refuse certificates whose fields are not sorted')
+    n = 0
+    for cls in k.idx.all_subclasses(k.idx.cls(
+            'public_key.SSHOpenSSHCertificate')):
+        for st in cls.node.body:
+            if not (isinstance(st, ast.Assign) and
+                    isinstance(st.targets[0], ast.Name) and
+                    st.targets[0].id.endswith('_encoders') and
+                    isinstance(st.value, ast.Tuple)):
+                continue
+            names = [e.elts[0].value for e in st.value.elts
+                     if isinstance(e, ast.Tuple) and e.elts and
+                     isinstance(e.elts[0], ast.Constant)]
+            if len(names) != len(st.value.elts):
+                rep.error('C15.R7', f'{cls.name}.{st.targets[0].id}',
+                          'encoder table rows not foldable')
+                continue
+            n += 1
+            enc = [x.encode() if isinstance(x, str) else x for x in names]
+            bad = [(a, b) for a, b in zip(enc, enc[1:]) if not a < b]
+            rep.check(not bad, 'C15.R7',
+                      f'public_key.{cls.name}|{st.targets[0].id} sorted',
+                      f'{len(names)} names in ascending order',
+                      f'{st.targets[0].id} lists '
+                      f'{bad[0][0].decode() if bad else ""} before '
+                      f'{bad[0][1].decode() if bad else ""}: a certificate '
+                      'carrying both is written with unsorted fields and is '
+                      'rejected by PyCA ("Fields not lexically sorted")',
+                      f'asyncssh/public_key.py:{st.lineno}')
+    rep.floor('C15.R7', 'certificate encoder tables', n, 2)
+
+
 def run(idx, rep, tier):
     k = Kit(idx, rep)
     rep.assumptions += NOT_DECIDED
@@ -713,3 +752,4 @@ def run(idx, rep, tier):
     r4(k)
     r5(k)
     r6(k)
+    r7(k)
